@@ -200,7 +200,7 @@ func replayC09(detail json.RawMessage) error {
 // c09URLs: u1 (GET PUT POST OPTIONS), u2 (DELETE), an unknown URL, and the URLs of two routes
 // whose path variable has a regular expression with its own capturing group: GET /d/{id} and
 // POST /d/{id}/c; and a literal with a non-ASCII letter (percent-encoded on the wire).
-var c09URLs = []string{"u1", "u2", "nope", "d/42", "d/42/c", "d/x", "caf\u00e9"}
+var c09URLs = []string{"u1", "u2", "nope", "d/42", "d/42/c", "d/x", "caf\u00e9", "api/reports", "reports"}
 
 func c09Alphabet() []h.Req {
 	var alphabet []h.Req
